@@ -3,6 +3,7 @@ pub mod common;
 pub mod c01;
 pub mod c02;
 pub mod c05;
+pub mod c06;
 pub mod c07;
 pub mod c08;
 pub mod c09;
@@ -28,6 +29,7 @@ pub fn all() -> Vec<(&'static str, fn() -> Vec<CheckDef>)> {
         ("C03", chist::c03_checks),
         ("C04", chist::c04_checks),
         ("C05", c05::checks),
+        ("C06", c06::checks),
         ("C07", c07::checks),
         ("C08", c08::checks),
         ("C09", c09::checks),
